@@ -1505,6 +1505,7 @@ func (h *fsmHandler) opensent(ctx context.Context) (bgp.FSMState, *fsmStateReaso
 	holdTimer := time.NewTimer(time.Second * time.Duration(fsm.opensentHoldTime))
 
 	for {
+		verifPoint("opensent.select")
 		select {
 		case <-ctx.Done():
 			fsm.conn.Close()
